@@ -1433,6 +1433,9 @@ def run_path(harness, config, prefix=None, prefix_model=None, mode="sym", values
         mon.set_events(tool, mon.events.PY_START)
         mon.restart_events()
         prof = True
+    if mode == "sym":
+        from .timeproxy import install_module_shims
+        install_module_shims()
     try:
         harness(c, config)
     except PathInfeasible:
@@ -1461,6 +1464,8 @@ def run_path(harness, config, prefix=None, prefix_model=None, mode="sym", values
                 ob["status"] = "undecided"
         c.obligations.append(ob)
     finally:
+        from . import stubs as _stubs
+        _stubs.uninstall_all()
         if prof is not None:
             sys.monitoring.set_events(sys.monitoring.PROFILER_ID, 0)
             sys.monitoring.register_callback(sys.monitoring.PROFILER_ID, sys.monitoring.events.PY_START, None)
